@@ -122,6 +122,9 @@ type Cell struct {
 	Jit     int    // != 0: consumers yield / sleep pseudo-randomly (seed) between their Acquire calls
 	Via     string // direct | cfg
 	Shots   int    // engine: shared once(Shots) schedule; 0 = unlimited
+	Eol     int    // shape of the line ends of the ammo file: 0 = "\n" after every line, 1 = the last line has no newline, 2 = "\r\n" where the format has lines, 3 = blank lines before the first and after the last entry
+	Idle    bool   // engine: the shared schedule has no token at all (a run that shoots nothing): instances finish at once
+	Gate    int    // != 0: the Gate-th file operation waits until the context given to Provider.Run is cancelled (at most 2 s)
 	Tick    time.Duration
 }
 
@@ -139,6 +142,7 @@ type Obs struct {
 	Shots     int    // engine
 	EngErr    string // engine: nil | hang | other:<..>
 	Wait      bool   // engine: Engine.Wait returned
+	Gated     bool   // Gate != 0: the gate operation happened inside Provider.Run and was released by the cancel of Run's context
 }
 
 // ---------------------------------------------------------------- counting filesystem (one global instance:
@@ -150,6 +154,9 @@ type cellIO struct {
 	cancelAt int64
 	cancel   func()
 	fired    atomic.Bool
+	gateAt   int64
+	gated    atomic.Bool                     // the gate operation happened inside Provider.Run and saw the cancel
+	runCtx   atomic.Pointer[context.Context] // the context Provider.Run was called with
 }
 
 func (c *cellIO) op() bool {
@@ -157,6 +164,15 @@ func (c *cellIO) op() bool {
 	if c.cancelAt > 0 && n == c.cancelAt && c.cancel != nil {
 		c.fired.Store(true)
 		c.cancel()
+	}
+	if c.gateAt > 0 && n == c.gateAt {
+		if ctx := c.runCtx.Load(); ctx != nil {
+			select {
+			case <-(*ctx).Done():
+				c.gated.Store(true)
+			case <-time.After(2 * time.Second):
+			}
+		}
 	}
 	return c.killed.Load()
 }
@@ -258,37 +274,58 @@ func identOfPath(p string) int {
 
 func tagOf(i int) string { return "t" + strconv.Itoa(i) }
 
-// FileFor renders the ammo file of a cell (extension, content).
+// FileFor renders the ammo file of a cell (extension, content).  Eol varies what is NOT an entry: how lines end
+// and what surrounds the entries (see Cell.Eol); every variant is a well-formed file of the format with the same
+// N entries.
 func FileFor(c Cell) (string, string) {
+	ext, body := fileBody(c)
+	switch c.Eol {
+	case 1:
+		if c.Kind != KRaw { // a raw file ends with the bytes of its last request
+			body = strings.TrimRight(body, "\r\n")
+		}
+	case 3:
+		if c.Kind != KGRPCJSON { // grpc/json: every line is an ammo
+			body = "\n\n" + body + "\n \n\n"
+		}
+	}
+	return ext, body
+}
+
+func fileBody(c Cell) (string, string) {
 	var b strings.Builder
 	pad := strings.Repeat("p", c.Pad)
+	nl := "\n"
+	if c.Eol == 2 {
+		nl = "\r\n"
+	}
 	switch c.Kind {
 	case KURI:
 		if c.Junk {
-			b.WriteString("[X-Common: yes]\n\n")
+			b.WriteString("[X-Common: yes]" + nl + nl)
 		}
 		for i := 0; i < c.N; i++ {
-			fmt.Fprintf(&b, "%s %s\n", entryPath(i), tagOf(i))
+			fmt.Fprintf(&b, "%s %s%s", entryPath(i), tagOf(i), nl)
 			if c.Junk && i == 0 {
-				b.WriteString("[X-Later: 1]\n")
+				b.WriteString("[X-Later: 1]" + nl)
 			}
 			if c.Pad > 0 {
-				fmt.Fprintf(&b, "[X-Pad: %s]\n", pad)
+				fmt.Fprintf(&b, "[X-Pad: %s]%s", pad, nl)
 			}
 		}
 		return ".uri", b.String()
 	case KURIPost:
 		if c.Junk {
-			b.WriteString("[X-Common: yes]\n")
+			b.WriteString("[X-Common: yes]" + nl)
 		}
 		for i := 0; i < c.N; i++ {
 			body := ""
 			if i%2 == 0 || c.Pad > 0 {
 				body = fmt.Sprintf("body-%d%s", i, pad)
 			}
-			fmt.Fprintf(&b, "%d %s %s\n%s", len(body), entryPath(i), tagOf(i), body)
+			fmt.Fprintf(&b, "%d %s %s%s%s", len(body), entryPath(i), tagOf(i), nl, body)
 			if body != "" || c.Junk {
-				b.WriteString("\n")
+				b.WriteString(nl)
 			}
 		}
 		return ".uripost", b.String()
@@ -299,17 +336,17 @@ func FileFor(c Cell) (string, string) {
 				req += "X-Pad: " + pad + "\r\n"
 			}
 			req += "\r\n"
-			fmt.Fprintf(&b, "%d %s\n%s", len(req), tagOf(i), req)
-			if c.Junk {
-				b.WriteString("\n")
+			fmt.Fprintf(&b, "%d %s%s%s", len(req), tagOf(i), nl, req)
+			if c.Junk && !(c.Eol == 1 && i == c.N-1) {
+				b.WriteString(nl)
 			}
 		}
 		return ".raw", b.String()
 	case KJSONLine:
 		for i := 0; i < c.N; i++ {
-			fmt.Fprintf(&b, `{"host":"h.example","method":"GET","uri":"%s","tag":"%s","headers":{"X-I":"%d","X-Pad":"%s"}}`+"\n", entryPath(i), tagOf(i), i, pad)
+			fmt.Fprintf(&b, `{"host":"h.example","method":"GET","uri":"%s","tag":"%s","headers":{"X-I":"%d","X-Pad":"%s"}}`+nl, entryPath(i), tagOf(i), i, pad)
 			if c.Junk && i == 0 {
-				b.WriteString("\n")
+				b.WriteString(nl)
 			}
 		}
 		return ".jsonl", b.String()
@@ -320,18 +357,18 @@ func FileFor(c Cell) (string, string) {
 				b.WriteString(",")
 			}
 			if c.Junk {
-				b.WriteString("\n  ")
+				b.WriteString(nl + "  ")
 			}
 			fmt.Fprintf(&b, `{"host":"h.example","method":"GET","uri":"%s","tag":"%s","headers":{"X-Pad":"%s"}}`, entryPath(i), tagOf(i), pad)
 		}
 		b.WriteString("]")
 		if c.Junk {
-			b.WriteString("\n")
+			b.WriteString(nl)
 		}
 		return ".json", b.String()
 	case KGRPCJSON:
 		for i := 0; i < c.N; i++ {
-			fmt.Fprintf(&b, `{"tag":"%s","call":"pkg.Svc.M%d","payload":{"i":%d,"pad":"%s"}}`+"\n", tagOf(i), i, i, pad)
+			fmt.Fprintf(&b, `{"tag":"%s","call":"pkg.Svc.M%d","payload":{"i":%d,"pad":"%s"}}`+nl, tagOf(i), i, i, pad)
 		}
 		return ".grpc.json", b.String()
 	case KGenJSON:
@@ -340,7 +377,7 @@ func FileFor(c Cell) (string, string) {
 			if c.Junk {
 				b.WriteString(" ")
 			} else {
-				b.WriteString("\n")
+				b.WriteString(nl)
 			}
 		}
 		return ".gen.json", b.String()
@@ -351,7 +388,7 @@ func FileFor(c Cell) (string, string) {
 		for i := 0; i < c.N; i++ {
 			fmt.Fprintf(&b, "  - name: e%d\n    weight: 1\n    min_waiting_time: 0\n    requests: [\"r\"]\n", i)
 		}
-		return ".http.yaml", b.String()
+		return ".http.yaml", strings.ReplaceAll(b.String(), "\n", nl)
 	case KGRPCScn:
 		b.WriteString("calls:\n")
 		b.WriteString("  - name: c\n    call: pkg.Svc.M\n    tag: c\n    payload: '{}'\n")
@@ -359,7 +396,7 @@ func FileFor(c Cell) (string, string) {
 		for i := 0; i < c.N; i++ {
 			fmt.Fprintf(&b, "  - name: e%d\n    weight: 1\n    min_waiting_time: 0\n    requests: [\"c\"]\n", i)
 		}
-		return ".grpc.yaml", b.String()
+		return ".grpc.yaml", strings.ReplaceAll(b.String(), "\n", nl)
 	}
 	return "", ""
 }
@@ -659,20 +696,25 @@ func prepare(c Cell) (*env, string) {
 		e.io.cancelAt = int64(c.At)
 		e.io.cancel = e.cancel
 	}
+	e.io.gateAt = int64(c.Gate)
 	p, err := construct(c, e.path)
 	if err != nil {
 		e.close()
 		return nil, classifyErr(err)
 	}
-	e.p = safeProv{p}
+	e.p = safeProv{p, e.io}
 	return e, ""
 }
 
 // safeProv turns a panic of Provider.Run (it runs in a goroutine of its own, also inside the engine) into an error
 // result, so that a crashing provider is an observation of its cell instead of the end of the whole driver.
-type safeProv struct{ core.Provider }
+type safeProv struct {
+	core.Provider
+	io *cellIO
+}
 
 func (s safeProv) Run(ctx context.Context, deps core.ProviderDeps) (err error) {
+	s.io.runCtx.Store(&ctx)
 	defer func() {
 		if r := recover(); r != nil {
 			err = fmt.Errorf("PANIC %v", r)
@@ -1043,6 +1085,9 @@ func runEngine(e *env) Obs {
 		Aggregator: nopAggregator{},
 		NewGun:     func() (core.Gun, error) { return &recGun{rec: rec}, nil },
 		NewRPSSchedule: func() (core.Schedule, error) {
+			if c.Idle {
+				return schedule.NewOnce(0), nil
+			}
 			if c.Shots > 0 {
 				return schedule.NewOnce(int64(c.Shots)), nil
 			}
@@ -1084,9 +1129,10 @@ func runEngine(e *env) Obs {
 	rec.mu.Lock()
 	defer rec.mu.Unlock()
 	obs.Shots = len(rec.seq)
+	obs.Gated = e.io.gated.Load()
 	obs.Ops = e.io.ops.Load()
 	m2, bounded := Expected(c.Limit, c.Passes, c.N)
-	complete := bounded && (c.Shots == 0 || m2 <= c.Shots)
+	complete := bounded && !c.Idle && (c.Shots == 0 || m2 <= c.Shots)
 	obs.Seq = seqVerdict(append([]int(nil), rec.seq...), c.N, c.Cons, complete)
 	return obs
 }
